@@ -1,4 +1,5 @@
 //! vh-driver: conformance harness for the `scylla` crate (built with --cfg scylla_verif).
+mod c18;
 mod c19;
 mod gate;
 
@@ -10,6 +11,9 @@ fn main() {
     }
     let rest = &args[2..];
     let rc = match (args[0].as_str(), args[1].as_str()) {
+        ("c18", "run") => c18::cmd_run(rest),
+        ("c18", "learn") => c18::cmd_learn(rest),
+        ("c18", "stress") => c18::cmd_stress(rest),
         ("c19", "run") => c19::cmd_run(rest),
         ("c19", "learn") => c19::cmd_learn(rest),
         ("c19", "stress") => c19::cmd_stress(rest),
